@@ -125,16 +125,18 @@ func ExtractInfo(c Cursor, obj Object, _ bool) (*Info, error) {
 
 	// trapped field
 	if trappedObj := dict["Trapped"]; trappedObj != nil {
-		if name, err := c.Name(trappedObj); err == nil {
-			switch name {
-			case "True":
-				info.Trapped.Set(true)
-			case "False":
-				info.Trapped.Set(false)
-			}
-			// "Unknown" or any unrecognized value leaves Trapped unset
+		name, err := Optional(c.Name(trappedObj))
+		if err != nil {
+			return nil, err
 		}
-		// ignore errors - treat as Unknown
+		switch name {
+		case "True":
+			info.Trapped.Set(true)
+		case "False":
+			info.Trapped.Set(false)
+		}
+		// "Unknown", any unrecognized value or a malformed entry leaves
+		// Trapped unset
 	}
 
 	// custom fields
@@ -147,7 +149,11 @@ func ExtractInfo(c Cursor, obj Object, _ bool) (*Info, error) {
 		if standardKeys[key] {
 			continue
 		}
-		if ts, err := c.TextString(val); err == nil && len(ts) > 0 {
+		ts, err := Optional(c.TextString(val))
+		if err != nil {
+			return nil, err
+		}
+		if len(ts) > 0 {
 			if info.Custom == nil {
 				info.Custom = make(map[string]string)
 			}
